@@ -29,6 +29,7 @@ PROFILES = {
     'groups': dict(batch=1, submit=6, late_child=2, update=4, groups=4, jobs=4, commit=5, cancel=4, delete=1, instance=1, schedule=5, complete=8,
                    sched_loop=4, cancel_ready=4, cancel_running=1, tick=1),
     'cancel': dict(batch=1, submit=6, late_child=2, update=3, groups=4, jobs=4, commit=4, cancel=9, instance=2, schedule=6, schedule_any=2, creating=3,
+                   activate=2, jp_schedule=3,
                    started=4, complete=5, sched_loop=5, cancel_ready=3, cancel_creating=2, cancel_running=3, cleanup_cancellable=2,
                    tick=1),
     'instances': dict(batch=1, submit=5, instance=4, activate=4, deactivate=4, mark_deleted=2, schedule=8, schedule_any=2, creating=5, jp_schedule=4,
@@ -40,7 +41,7 @@ PROFILES = {
 
 
 # in how many of four cases a 'chain' is woven into the history (see strategies)
-CHAINS = {'lifecycle': 1, 'deps': 1, 'counters': 1, 'cancel': 1, 'instances': 1}
+CHAINS = {'lifecycle': 1, 'deps': 1, 'counters': 1, 'cancel': 2, 'instances': 1, 'groups': 1}
 
 
 def strategies(profile, max_ops=40):
@@ -131,21 +132,30 @@ def strategies(profile, max_ops=40):
     # completes' in well under 1% of cases.
     cstate = st.sampled_from([0, 0, 1, 2])
 
-    def chain(jp, ar, cpu, cst, mid_cancel):
-        j = {'g': 0, 'parents': [], 'cpu': cpu, 'pool': 2 if jp else 0}
+    def chain(jp, ar, cpu, cst, mid_cancel, nest, cg, under):
+        # nest: the job sits at the bottom of a fresh chain of `nest` nested groups; a mid-life cancel then hits group index cg (any
+        # level) and, with `under`, is followed by a multi-request update creating a group and a job beneath generated groups
+        j = {'g': -nest if nest else 0, 'parents': [], 'cpu': cpu, 'pool': 2 if jp else 0}
         if ar:
             j['ar'] = True
-        steps = [['submit', 0, [], [j]]]
+        steps = [['submit', 0, [0, -1, -2][:nest], [j]]]
         if jp:
             steps += [['creating', -1, 0, None], ['activate', -1], ['jp_schedule', -1]]
         else:
             steps += [['schedule', -1, 0]]
         steps += [['started', -1, 0, None], ['complete', -1, cst, 0, 5, None, True, 1]]
         if mid_cancel:
-            steps.insert(mid_cancel % len(steps) + 1, ['cancel', 0, 0])
+            at = mid_cancel % len(steps) + 1
+            extra = [['cancel', 0, cg if nest else 0]]
+            if under is not None:
+                extra += [['update', 0, [under[0]], [{'g': under[1], 'parents': [], 'cpu': 1}]], ['groups', -1, None, False],
+                          ['jobs', -1, None, False], ['commit', -1]]
+            steps[at:at] = extra
         return steps
 
-    chains = st.builds(chain, st.booleans(), st.booleans(), st.integers(0, 5), cstate, st.sampled_from([0, 0, 0, 1, 2, 3, 4]))
+    chains = st.builds(chain, st.booleans(), st.booleans(), st.integers(0, 5), cstate, st.sampled_from([0, 0, 0, 1, 2, 3, 4]),
+                       st.sampled_from([0, 0, 1, 2, 3]), st.integers(0, 4),
+                       st.one_of(st.none(), st.tuples(st.integers(0, 5), st.integers(0, 5)).map(list)))
     child = st.fixed_dictionaries({'g': st.integers(0, 3), 'parents': st.lists(st.sampled_from([-1, -1, 0, 1, 2]), min_size=1, max_size=2),
                                    'cpu': st.integers(0, 5)}, optional={'ar': st.booleans(), 'pool': st.sampled_from([0, 0, 2])})
 
